@@ -52,11 +52,11 @@ func hC02Check(src string) {
 // identifier / literal tokens and non-canonical spellings.
 //
 //vf:unwind 400
-//vf:shards 12
+//vf:shards 13
 //vf:steps 80000000
 func VfC02_Template() {
 	var src string
-	switch vfChoice("template", 12) {
+	switch vfChoice("template", 13) {
 	case 0: // redundant quoting, definitions out of printer order, decimal literal
 		a, b := hLetterIn("a", 'a', 'f'), hLetterIn("b", 'g', 'k')
 		d := hDigits("d", 2, '0', '9')
@@ -72,6 +72,11 @@ func VfC02_Template() {
 		src = "@c = global i16 -" + hDigits("d", 2, '1', '9') + "\n"
 	case 10:
 		src = "@e = global i64 u0x" + hHexDigits("h", 2) + "000000\n"
+	case 12: // floating-point literals (concrete values: decimal/scientific forms and the extended kinds run natively through big.Float and mewmew/float)
+		a := hLetterIn("a", 'a', 'f')
+		src = "@" + a + " = global double 1000000.0\n@d2 = global double 1.0e22\n@d3 = global double 0.1\n@d4 = global double -2.5e-3\n" +
+			"@f1 = global float 5.0e7\n@f2 = global float 0x3FF0000000000000\n@h1 = global half 0xHFE00\n@h2 = global half 1.0\n" +
+			"@x1 = global x86_fp80 0xKBFFF8000000000000000\n@q1 = global fp128 0xL0000000000000000FFFF800000000000\n"
 	case 11: // a type alias (known finding, see known_findings.json)
 		a, b := hLetterIn("a", 'a', 'c'), hLetterIn("b", 'd', 'f')
 		src = "%" + a + " = type { i32 }\n%" + b + " = type %" + a + "\n@g = global %" + b + " zeroinitializer\n"
